@@ -42,6 +42,10 @@ TRUSTED = [
     "the dump/canonicalisation code of this module (numpy uint64 views of the stored doubles)",
     "h5py.File(path, 'w') truncates an existing file (checked per sample: after writing twice / over another "
     "collection the dump of the file must equal h5_store(enc x) of the last object written)",
+    "the model is state free: every file or dataset that a SEQUENCE of calls leaves behind is compared in Coq with enc of "
+    "the last object written there; harness/gen_codec.py refuses covered functions that read module-level variables or "
+    "non-constant class attributes, carry caching decorators, use global / del / in-place operators on attributes or "
+    "items, or open the file in another mode than 'w' (to_file) / 'r' (from_file)",
     "file-level attributes written for to_file(info=...) are not part of the model's `file` (no reader looks at them); "
     "the dump accepts them only if their keys are exactly those of `info`",
 ]
@@ -65,7 +69,11 @@ RULE = ("objects generated from VERIF_SEED: all five classes, d=1..3, 0..15 ampl
         "layouts; built by every constructor path (ctor, append with/without time, copy=False, copy constructor, "
         "Emulsion.empty+extend, +, dtype=, force_consistency), reaching to_file fresh / copied / deep-copied / pickled / "
         "sliced / linked; written once, twice, over an existing file, after growing, and again after reading back; "
-        "options info= and progress=; collections of 11 / 101 / 1001 (thorough: 10001, 100001) members; each object is "
+        "options info= and progress=; collections of 11 / 101 / 1001 (thorough: 10001, 100001) members; call sequences "
+        "within one process (B written over A at one path for all 16 ordered pairs of kinds x shorter / equal / longer / "
+        "empty / over empty / much shorter, two files alternately, look-alike classes and layouts alternately, one file read "
+        "twice, read-mutate-write to the same path, rewriting a path while an object read from it is alive, a good call "
+        "after a failing read / write, several datasets through one open h5py group); each object is "
         "written with to_file, the file is dumped and compared with enc inside Coq, read back with from_file and compared "
         "with dec; distinct = distinct canonical objects, non-trivial = at least one droplet")
 
@@ -439,7 +447,7 @@ def _gen_recipe(rng: random.Random, kind: str, longer: bool = False) -> dict:
             rec["build"] = rng.choice(["ctor", "empty_like", "dtype_kw"])
         else:
             rec["build"] = rng.choice(["ctor"] * 5 + ["nocopy", "nocopy_shared", "empty_then_extend", "add", "dtype_kw",
-                                                      "force_consistency"])
+                                                      "force_consistency", "from_iter"])
         if rec["build"] in ("empty_like", "dtype_kw", "empty_then_extend"):
             rec["empty_like"] = gen_drop(rng)     # example droplet that fixes the emulsion's dtype (may differ from the members)
         if rec["build"] == "nocopy_shared" and len(ms) >= 2:
@@ -470,7 +478,7 @@ def _gen_recipe(rng: random.Random, kind: str, longer: bool = False) -> dict:
         flav = "empty" if n == 0 else next((f for f in flavs if f not in ("uniform", "empty")), "uniform")
         rec = {"kind": kind, "frames": frames, "times": ts, "flavour": flav, "in_domain": dom, "time_style": style,
                "build": rng.choice(["ctor"] * 4 + ["default_times", "append", "append", "append_nocopy", "append_default",
-                                                   "copy_ctor"]),
+                                                   "copy_ctor", "from_iter"]),
                "times_as": rng.choice(["list", "list", "tuple", "ndarray", "iter"])}
         if rec["build"] in ("default_times", "append_default"):
             rec["times"], rec["in_domain"], rec["time_style"] = [{"int": j} for j in range(n)], True, "default"
@@ -489,7 +497,7 @@ def _gen_recipe(rng: random.Random, kind: str, longer: bool = False) -> dict:
         styles.append(style)
     rec = {"kind": kind, "tracks": tracks, "in_domain": dom,
            "time_style": next((s for s in styles if s != "range"), "range") if styles else "none",
-           "build": rng.choice(["ctor"] * 4 + ["append", "shared"])}
+           "build": rng.choice(["ctor"] * 4 + ["append", "shared", "from_iter"])}
     if rec["build"] == "shared" and n >= 2:
         j = rng.randrange(1, n)
         tracks[j], flavs[j] = _copy.deepcopy(tracks[0]), flavs[0]
@@ -523,6 +531,8 @@ def build(rec: dict):
             return Emulsion(ds[:h]) + Emulsion(ds[h:])
         if style == "force_consistency":      # raises ValueError unless all members share one layout
             return Emulsion(ds, force_consistency=True)
+        if style == "from_iter":              # droplets: Iterable -- a one-shot generator
+            return Emulsion(d for d in ds)
         return Emulsion(ds)
     if k == "track":
         ds = [build_drop(m) for m in rec["members"]]
@@ -549,6 +559,8 @@ def build(rec: dict):
                 else:
                     obj.append(e, build_time(t), copy=not (rec.get("nocopy") or style == "append_nocopy"))
             return obj
+        if style == "from_iter":              # emulsions: Iterable[Emulsion] -- a one-shot generator of droplet lists
+            return EmulsionTimeCourse((list(e) for e in ems), build_times(rec["times"], cont))
         obj = EmulsionTimeCourse(ems, build_times(rec["times"], cont))
         return EmulsionTimeCourse(obj) if style == "copy_ctor" else obj
     trs = [DropletTrack([build_drop(m) for m in tr["members"]], [build_time(t) for t in tr["times"]])
@@ -560,6 +572,8 @@ def build(rec: dict):
         for tr in trs:
             obj.append(tr)
         return obj
+    if style == "from_iter":
+        return DropletTrackList(iter(trs))
     return DropletTrackList(trs)
 
 
@@ -639,6 +653,38 @@ def dump_obj(obj, kind: str):
     return [dump_obj(tr, "track") for tr in obj]
 
 
+def dump_dataset(ds) -> tuple:
+    """(attrs, body) of one h5py dataset: attributes as tagged values, rows as bit patterns"""
+    import h5py
+    if not isinstance(ds, h5py.Dataset):
+        raise Undumpable(f"{ds.name} is not a dataset")
+    attrs = []
+    for an, av in ds.attrs.items():
+        if isinstance(av, str):
+            attrs.append([an, {"str": av}])
+        elif isinstance(av, (np.integer,)) and not isinstance(av, np.bool_):
+            attrs.append([an, {"int": int(av)}])
+        elif isinstance(av, np.floating) and av.dtype == np.float64:
+            attrs.append([an, {"float": arr_bits(av)[0]}])
+        else:
+            raise Undumpable(f"attribute {an}={av!r} of type {type(av).__name__}")
+    if ds.shape == ():
+        return attrs, None
+    if ds.ndim != 1 or ds.dtype.names is None:
+        raise Undumpable(f"dataset of shape {ds.shape} dtype {ds.dtype}")
+    arr = ds[...]
+    rows = []
+    for row in arr:
+        fields = []
+        for n in arr.dtype.names:
+            ft = arr.dtype.fields[n][0]
+            if ft.base != np.dtype("<f8") or len(ft.shape) > 1:
+                raise Undumpable(f"field {n} of type {ft}")
+            fields.append([n, arr_bits(row[n]), bool(ft.shape)])
+        rows.append(fields)
+    return attrs, rows
+
+
 def dump_file(path, info=None) -> list:
     """[(key, attrs, body)] in the order in which h5py lists the keys.  File-level attributes are accepted only if
     they are the ones asked for with `info` (the model's `file` is the list of datasets; readers ignore them)."""
@@ -648,35 +694,7 @@ def dump_file(path, info=None) -> list:
         if len(fp.attrs) and sorted(fp.attrs.keys()) != sorted((info or {}).keys()):
             raise Undumpable(f"file-level attributes {sorted(fp.attrs.keys())[:5]}")
         for key in fp.keys():
-            ds = fp[key]
-            if not isinstance(ds, h5py.Dataset):
-                raise Undumpable(f"{key} is not a dataset")
-            attrs = []
-            for an, av in ds.attrs.items():
-                if isinstance(av, str):
-                    attrs.append([an, {"str": av}])
-                elif isinstance(av, (np.integer,)) and not isinstance(av, np.bool_):
-                    attrs.append([an, {"int": int(av)}])
-                elif isinstance(av, np.floating) and av.dtype == np.float64:
-                    attrs.append([an, {"float": arr_bits(av)[0]}])
-                else:
-                    raise Undumpable(f"attribute {an}={av!r} of type {type(av).__name__}")
-            if ds.shape == ():
-                body = None
-            else:
-                if ds.ndim != 1 or ds.dtype.names is None:
-                    raise Undumpable(f"dataset of shape {ds.shape} dtype {ds.dtype}")
-                arr = ds[...]
-                rows = []
-                for row in arr:
-                    fields = []
-                    for n in arr.dtype.names:
-                        ft = arr.dtype.fields[n][0]
-                        if ft.base != np.dtype("<f8") or len(ft.shape) > 1:
-                            raise Undumpable(f"field {n} of type {ft}")
-                        fields.append([n, arr_bits(row[n]), bool(ft.shape)])
-                    rows.append(fields)
-                body = rows
+            attrs, body = dump_dataset(fp[key])
             out.append([key, attrs, body])
     return out
 
@@ -748,6 +766,13 @@ def cq_file(f: list) -> str:
         return f"({cq_str(key)}, DS {cq_list(attrs, attr)} {b})"
 
     return cq_list(f, ds)
+
+
+def cq_dataset(attrs, body) -> str:
+    lit = cq_file([["emulsion", attrs, body]])
+    prefix = "[(s_emulsion, "
+    assert lit.startswith(prefix) and lit.endswith(")]")
+    return "(" + lit[len(prefix):-2] + ")"
 
 
 def cq_err(kind: str) -> str:
@@ -918,9 +943,12 @@ def _safe(fn, *args, **kw):
         raise Undumpable(f"{type(e).__name__}: {str(e)[:100]}")
 
 
-def _write(obj, path: Path, rec: dict):
+def _write(obj, path: Path, rec: dict, out: dict | None = None):
     if "info" in rec and rec["kind"] != "emulsion":
-        obj.to_file(str(path), info=_copy.deepcopy(rec["info"]))
+        arg = _copy.deepcopy(rec["info"])
+        obj.to_file(str(path), info=arg)
+        if arg != rec["info"] and out is not None:      # arguments are inspected after the call
+            out.setdefault("oracle", []).append(f"to_file changed its info argument to {str(arg)[:80]}")
     else:
         obj.to_file(str(path))
 
@@ -1011,11 +1039,11 @@ def run_one(rec: dict, workdir: Path) -> dict:
             if path.exists():
                 path.unlink()
     try:
-        _write(obj, path, rec)
+        _write(obj, path, rec, out)
         if hist == "twice_same":
-            _write(obj, path, rec)
+            _write(obj, path, rec, out)
         elif hist == "twice_other":
-            _write(obj, path2, rec)
+            _write(obj, path2, rec, out)
         out["write"] = "ok"
     except Exception as e:  # noqa
         out["write"] = exc_kind(e)
@@ -1155,6 +1183,413 @@ Definition dec_by (k : Z) (f : file) : result obj :=
 (* case = (reader, dumped file, what that reader returned) *)
 Definition agree2 (c : Z * file * result obj) : bool :=
   let '(k, f, r) := c in result_eqb obj_eqb (dec_by k f) r.
+"""
+
+
+# ---------------------------------------------------------------------------------------------
+# sequences: state kept between calls (input dimension 8) -- on disk, in the objects, in the module
+# ---------------------------------------------------------------------------------------------
+SAFE_TIME_STYLES = ["range", "half", "negative", "zero", "decreasing", "dups", "mixed", "numpy", "nonuniform"]
+
+
+def seq_recipe(rng: random.Random, kind: str, n: int, cls: str | None = None, dim: int | None = None,
+               na: int | None = None) -> dict:
+    """a collection with n top-level members that is inside the domain of the property and can be written:
+    one class and layout per dataset, finite radii, no NaN / oversized times"""
+    def drops(k, c=None):
+        c = c or cls or rng.choice(CLASS_NAMES)
+        d_ = CLASS_DIM.get(c) or dim or rng.choice([1, 2, 3])
+        a_ = (na or rng.choice([1, 2, 3])) if HAS_AMPL[c] else None     # short records: Coq's time goes into parsing literals
+        out = []
+        while len(out) < k:
+            d = gen_drop(rng, c, d_, a_)
+            if not is_nan_bits(d["radius"]):
+                out.append(d)
+        return out
+
+    def times(k, for_track):
+        while True:
+            ts, dom, style = gen_time_list(rng, k, for_track)
+            if dom and style in SAFE_TIME_STYLES and all("float" in t or abs(t["int"]) < 2 ** 53 for t in ts):
+                return ts
+    base = {"kind": kind, "flavour": "uniform" if n else "empty", "in_domain": True, "hist": "once", "prov": "fresh"}
+    if kind == "emulsion":
+        return {**base, "members": drops(n), "build": "ctor"}
+    if kind == "track":
+        return {**base, "members": drops(n), "times": times(n, True), "build": "ctor"}
+    if kind == "etc":
+        return {**base, "frames": [drops(rng.choice([0, 1, 2])) for _ in range(n)], "times": times(n, False), "build": "ctor"}
+    trs = []
+    for _ in range(n):
+        k = rng.choice([0, 1, 2])
+        trs.append({"members": drops(k), "times": times(k, True)})
+    return {**base, "tracks": trs, "build": "ctor"}
+
+
+# pairs of (class, dim, amplitudes) whose records agree in everything a cache might be keyed on (number of doubles /
+# itemsize, field names, dimension) but not in class or layout
+LOOKALIKES = [
+    (("PerturbedDroplet3D", 3, 2), ("PerturbedDroplet3DAxisSym", 3, 2)),     # identical dtype, different class
+    (("DiffuseDroplet", 2, None), ("SphericalDroplet", 3, None)),             # 4 doubles each
+    (("PerturbedDroplet2D", 2, 2), ("PerturbedDroplet3D", 3, 1)),             # 6 doubles each, same field names
+    (("PerturbedDroplet2D", 2, 1), ("PerturbedDroplet2D", 2, 2)),             # same class and names, other length
+    (("SphericalDroplet", 1, None), ("SphericalDroplet", 2, None)),
+    (("DiffuseDroplet", 3, None), ("PerturbedDroplet3D", 3, 1)),
+]
+MUTATIONS = ["grow", "shrink", "clear", "edit"]
+
+
+def sequence_specs(rng: random.Random, reps: int) -> list[dict]:
+    """JSON-able descriptions of call sequences; `reps` scales the randomised families"""
+    specs: list[dict] = []
+    # (a) B written over A at the same path: every ordered pair of kinds x every length relation
+    for ka in KINDS:
+        for kb in KINDS:
+            for rel, na_, nb_ in (("shorter", 3, 2), ("equal", 3, 3), ("longer", 3, 5), ("empty", 3, 0), ("over empty", 0, 2),
+                                  ("much shorter", 12, 1)):
+                specs.append({"seq": "write_over", "label": f"{ka} then {kb}, second {rel}",
+                              "objs": [seq_recipe(rng, ka, na_), seq_recipe(rng, kb, nb_)]})
+    for _ in range(reps):
+        for kind in KINDS:
+            la, lb = rng.choice(LOOKALIKES)
+            if rng.random() < 0.5:
+                la, lb = lb, la
+            n = rng.choice([1, 2, 3])
+            x1, y1, x2, y2 = (seq_recipe(rng, kind, n, *la), seq_recipe(rng, kind, n, *lb),
+                              seq_recipe(rng, kind, rng.choice([0, 1, 2, 4]), *la), seq_recipe(rng, kind, n, *lb))
+            # (b) two files written alternately   (c) look-alike classes / layouts alternately, fresh paths
+            specs.append({"seq": "alternate_files", "label": kind, "objs": [x1, y1, x2, y2]})
+            specs.append({"seq": "alternate_classes", "label": f"{kind}: {la[0]}/{la[1]}d/{la[2]} vs {lb[0]}/{lb[1]}d/{lb[2]}",
+                          "objs": [x1, y1]})
+            a = seq_recipe(rng, kind, rng.choice([1, 2, 3, 4]))
+            b = seq_recipe(rng, rng.choice(KINDS + [kind, kind]), rng.choice([0, 1, 2, 6]))
+            # (d) the same file read twice: equal, independent objects
+            specs.append({"seq": "read_twice", "label": kind, "objs": [a]})
+            # (e) read, mutate, write to the same path
+            how = rng.choice(MUTATIONS)
+            first = next(iter(_all_members(a)), None)
+            g = {"drop": gen_drop(rng, first["cls"], len(first["pos"]), len(first["ampl"]) if "ampl" in first else None)
+                 if first else gen_drop(rng), "time": rng.choice([{"int": 0}, {"float": f2b(-2.5)}, {"int": 17}, None])}
+            while is_nan_bits(g["drop"]["radius"]) or g["drop"].get("ampl") == []:
+                g["drop"] = gen_drop(rng, g["drop"]["cls"], len(g["drop"]["pos"]), len(g["drop"].get("ampl", [0])) or 1)
+            specs.append({"seq": "read_mutate_write", "label": f"{kind}: {how}", "objs": [a], "how": how, "grow": g})
+            # (f) the path is rewritten while an object read from it is still alive
+            specs.append({"seq": "write_while_alive", "label": f"{kind} alive, {b['kind']} written", "objs": [a, b]})
+            # (g) a good call after a failing one
+            specs.append({"seq": "after_failure", "label": kind, "objs": [a, seq_recipe(rng, kind, 2, *la), seq_recipe(rng, kind, 2, *lb)],
+                          "bad_file": rng.choice(["unknown_class", "no_attribute", "other_kind", "not_hdf5"])})
+        # (h) several collections through one open h5py group, look-alike classes alternately, own keys
+        for grp in ("/", "g", "a/b"):
+            la, lb = rng.choice(LOOKALIKES)
+            objs = [seq_recipe(rng, rng.choice(["emulsion", "track"]), rng.choice([0, 1, 2, 3]), *(la if j % 2 == 0 else lb))
+                    for j in range(rng.choice([2, 3, 4, 5]))]
+            specs.append({"seq": "open_group", "label": f"{len(objs)} datasets", "objs": objs,
+                          "group": grp, "dup_key": rng.random() < 0.5})
+    return specs
+
+
+def _parts(obj, kind: str) -> list:
+    """every mutable object a collection is made of: the collection, its lists, its members, their droplets"""
+    out = [obj]
+    if kind == "emulsion":
+        return out + list(obj)
+    if kind == "track":
+        return out + [obj.droplets, obj.times] + list(obj.droplets)
+    if kind == "etc":
+        return out + [obj.emulsions, obj.times] + list(obj.emulsions) + [d for e in obj.emulsions for d in e]
+    for tr in obj:
+        out += _parts(tr, "track")
+    return out
+
+
+def shared_state(a, b, kind: str) -> str | None:
+    """what two collections that must be independent have in common (object identity or droplet memory)"""
+    ids = {id(x): x for x in _parts(a, kind)}
+    for y in _parts(b, kind):
+        if id(y) in ids:
+            return f"the same {type(y).__name__} object"
+    da = [d for g in droplets_of(a, kind) for d in g][:24]
+    db = [d for g in droplets_of(b, kind) for d in g][:24]
+    for x in da:
+        for y in db:
+            if np.shares_memory(x.data, y.data):
+                return "droplet records in the same memory"
+    return None
+
+
+def grow_everywhere(obj, kind: str) -> None:
+    """one more entry in every container of the collection (also in the empty ones)"""
+    from droplets.droplets import SphericalDroplet
+    from droplets.emulsions import Emulsion
+    from droplets.droplet_tracks import DropletTrack
+    extra = lambda dim: SphericalDroplet([0.5] * (dim or 1), 1.25)   # noqa: E731
+    if kind == "emulsion":
+        obj.append(extra(obj.dim))
+    elif kind == "track":
+        obj.append(extra(obj.dim), 99.5)
+    elif kind == "etc":
+        for e in obj.emulsions:
+            e.append(extra(e.dim))
+        obj.append(Emulsion([extra(1)]), 99.5)
+    else:
+        for tr in obj:
+            tr.append(extra(tr.dim), 99.5)
+        obj.append(DropletTrack([extra(1)], [99.5]))
+
+
+def mutate_obj(obj, kind: str, how: str, spec: dict) -> None:
+    """public-attribute mutations of a collection (history `read_mutate_write`)"""
+    if how == "grow":
+        grow(obj, {"kind": kind, "grow": spec["grow"]})
+    elif how == "shrink":
+        if kind in ("emulsion", "tracklist"):
+            if len(obj):
+                obj.pop()
+        else:
+            members = obj.droplets if kind == "track" else obj.emulsions
+            if members:
+                members.pop()
+                obj.times.pop()
+    elif how == "clear":
+        if kind == "track":
+            obj.droplets, obj.times = [], []
+        else:
+            obj.clear()
+    else:   # edit: another radius for the first droplet, another first time
+        ds = [d for g in droplets_of(obj, kind) for d in g]
+        if ds:
+            ds[0].data["radius"] = 2.5 + float(len(ds))
+        for holder in ([obj] if kind in ("track", "etc") else list(obj) if kind == "tracklist" else []):
+            if holder.times:
+                holder.times[0] = -3.25
+
+
+def _bad_file(path: Path, how: str, kind: str) -> None:
+    """a file the reader of `kind` must refuse"""
+    import h5py
+    from droplets.droplets import SphericalDroplet
+    from droplets.emulsions import Emulsion
+    if path.exists():
+        path.unlink()
+    if how == "not_hdf5":
+        path.write_bytes(b"this is not an HDF5 file\n" * 8)
+        return
+    with h5py.File(path, "w") as fp:
+        data = Emulsion([SphericalDroplet([1.0, 2.0], 3.0)]).data
+        if how == "other_kind":       # two plain arrays without attributes
+            fp.create_dataset("x", data=np.arange(3.0))
+            fp.create_dataset("y", data=np.arange(2.0))
+            return
+        ds = fp.create_dataset("time_000000" if kind == "etc" else "x", data=data)
+        if how == "unknown_class":
+            ds.attrs["droplet_class"] = "NoSuchDroplet"
+            ds.attrs["time"] = 0
+
+
+def run_sequence(spec: dict, workdir: Path) -> dict:
+    """Execute one sequence.  Returns {"oracle": failures, "triples": [(kind, obj dump, file dump, back dump | None,
+    status)], "dstriples": [(kind, obj dump, dataset dump, back dump | None, status)], "notes": [...]}; every file that
+    a sequence leaves behind is compared with the state-free model (`enc` of the last object written there)."""
+    import h5py
+    out: dict = {"oracle": [], "triples": [], "dstriples": [], "notes": []}
+    objs = [build(r) for r in spec["objs"]]
+    kinds = [r["kind"] for r in spec["objs"]]
+    dumps = [_safe(dump_obj, o, k) for o, k in zip(objs, kinds)]
+    p1, p2 = workdir / "seq1.h5", workdir / "seq2.h5"
+    for q in (p1, p2):
+        if q.exists():
+            q.unlink()
+
+    def judge(j_or_obj, path, tag, kind=None, dump=None):
+        """read `path` with the reader of the object's kind, compare with the object, record the triple"""
+        if isinstance(j_or_obj, int):
+            obj, kind, dump = objs[j_or_obj], kinds[j_or_obj], dumps[j_or_obj]
+        else:
+            obj = j_or_obj
+        rec = {"kind": kind}
+        sub: dict = {}
+        fdump, back, bdump = _round(obj, path, rec, sub, f" [{tag}]")
+        out["oracle"].extend(sub.get("oracle", []))
+        if "undumpable" in sub:
+            out["notes"].append("undumpable: " + sub["undumpable"])
+        elif fdump is not None:
+            out["triples"].append((kind, dump, fdump, bdump if back is not None else None, "ok" if back is not None else bdump))
+        try:
+            if _safe(dump_obj, obj, kind) != dump:
+                out["oracle"].append(f"the object written was modified [{tag}]")
+        except Undumpable as e:
+            out["oracle"].append(f"the object written is unusable afterwards ({e}) [{tag}]")
+        return back
+
+    seq = spec["seq"]
+    if seq == "write_over":
+        try:
+            objs[0].to_file(str(p1))
+        except Exception as e:  # noqa
+            out["notes"].append(f"first write raises {type(e).__name__}")
+        objs[1].to_file(str(p1))
+        judge(1, p1, "second object over the first")
+    elif seq == "alternate_files":
+        objs[0].to_file(str(p1))
+        objs[1].to_file(str(p2))
+        objs[2].to_file(str(p1))
+        judge(1, p2, "file 2 after file 1 was rewritten")
+        objs[3].to_file(str(p2))
+        judge(2, p1, "file 1 after file 2 was rewritten")
+        judge(3, p2, "file 2, second content")
+    elif seq == "alternate_classes":
+        for rnd in (1, 2):
+            for j in ((0, 1) if rnd == 1 else (1, 0)):
+                if p1.exists():
+                    p1.unlink()
+                objs[j].to_file(str(p1))
+                judge(j, p1, f"round {rnd}, object {j}")
+    elif seq == "read_twice":
+        kind = kinds[0]
+        objs[0].to_file(str(p1))
+        r1 = judge(0, p1, "first read")
+        r2 = judge(0, p1, "second read")
+        if r1 is not None and r2 is not None:
+            sh = shared_state(r1, r2, kind)
+            if sh:
+                out["oracle"].append(f"two reads of one file share {sh}")
+            d2 = _safe(dump_obj, r2, kind)
+            mutate_obj(r1, kind, "edit", spec)
+            grow_everywhere(r1, kind)
+            mutate_obj(r1, kind, "shrink", spec)
+            if _safe(dump_obj, r2, kind) != d2:
+                out["oracle"].append("changing the result of the first read changes the result of the second read")
+            judge(0, p1, "third read, after the first result was changed")
+    elif seq == "read_mutate_write":
+        kind = kinds[0]
+        objs[0].to_file(str(p1))
+        r = judge(0, p1, "read")
+        if r is not None:
+            try:
+                mutate_obj(r, kind, spec["how"], spec)
+            except ValueError as e:        # DropletTrack.append refuses another dimension
+                out["notes"].append(f"mutation refused: {str(e)[:60]}")
+            dr = _safe(dump_obj, r, kind)
+            try:
+                r.to_file(str(p1))
+            except Exception as e:  # noqa
+                out["notes"].append(f"writing the mutated object raises {type(e).__name__}")
+            else:
+                judge(r, p1, f"mutated ({spec['how']}) object written to the path it was read from", kind, dr)
+    elif seq == "write_while_alive":
+        kind = kinds[0]
+        objs[0].to_file(str(p1))
+        r = judge(0, p1, "read")
+        if r is not None:
+            dr = _safe(dump_obj, r, kind)
+            objs[1].to_file(str(p1))
+            if _safe(dump_obj, r, kind) != dr:
+                out["oracle"].append("an object read earlier changed when its file was rewritten")
+            out["oracle"].extend(f + " [object read before its file was rewritten]" for f in property_failures(objs[0], r, kind))
+            r_new = judge(1, p1, "written while the earlier result is alive")
+            if r_new is not None and kinds[1] == kind:
+                sh = shared_state(r, r_new, kind)
+                if sh:
+                    out["oracle"].append(f"the results of reading the path before and after it was rewritten share {sh}")
+                dn = _safe(dump_obj, r_new, kind)
+                grow_everywhere(r, kind)
+                if _safe(dump_obj, r_new, kind) != dn:
+                    out["oracle"].append("changing an object read earlier changes the object read after the path was rewritten")
+    elif seq == "after_failure":
+        kind = kinds[0]
+        objs[0].to_file(str(p1))
+        _bad_file(p2, spec["bad_file"], kind)
+        errs = []
+        for _ in range(2):
+            try:
+                reader_of(kind)(str(p2))
+                errs.append("no error")
+            except Exception as e:  # noqa
+                errs.append(type(e).__name__)
+            judge(0, p1, f"good file read after a failing read ({errs[-1]})")
+        if errs[0] != errs[1]:
+            out["oracle"].append(f"reading the same unreadable file twice: {errs[0]}, then {errs[1]}")
+        out["notes"].append(f"bad file {spec['bad_file']}: {errs[0]}")
+        # a failing to_file (look-alike classes mixed in one dataset), then a good one to the same path
+        ra, rb = spec["objs"][1], spec["objs"][2]
+        mixed = _copy.deepcopy(ra)
+        if kind in ("emulsion", "track"):
+            mixed["members"] = ra["members"][:1] + rb["members"][:1]
+            if kind == "track":
+                mixed["times"] = [{"int": 0}, {"int": 1}]
+        elif kind == "etc":
+            mixed["frames"] = [ra["frames"][0], [gen_drop(random.Random(0), "SphericalDroplet", 1), gen_drop(random.Random(1), "DiffuseDroplet", 1)]]
+            mixed["times"] = [{"int": 0}, {"int": 1}]
+        else:
+            mixed["tracks"] = ra["tracks"][:1] + [{"members": [gen_drop(random.Random(0), "SphericalDroplet", 1),
+                                                              gen_drop(random.Random(1), "DiffuseDroplet", 1)],
+                                                  "times": [{"int": 0}, {"int": 1}]}]
+        try:
+            build(mixed).to_file(str(p1))
+            out["notes"].append("the mixed collection was written")
+        except Exception as e:  # noqa
+            out["notes"].append(f"failing write: {type(e).__name__}")
+        objs[1].to_file(str(p1))
+        judge(1, p1, "good write after a failing write to the same path")
+    elif seq == "open_group":
+        from droplets.emulsions import Emulsion
+        from droplets.droplet_tracks import DropletTrack
+        keys = [f"k{j}_{kinds[j]}" for j in range(len(objs))]
+        written: dict[str, int] = {}
+        with h5py.File(p1, "w") as fp:
+            g = fp if spec["group"] == "/" else fp.create_group(spec["group"])
+            for j, (o, key) in enumerate(zip(objs, keys)):
+                o._write_hdf_dataset(g, key)
+                written[key] = j
+            if spec.get("dup_key") and len(objs) >= 2:
+                try:       # the key of the first dataset again, with the last object
+                    objs[-1]._write_hdf_dataset(g, keys[0])
+                    written[keys[0]] = len(objs) - 1
+                    out["notes"].append("second write under an existing key accepted")
+                except Exception as e:  # noqa
+                    out["notes"].append(f"second write under an existing key raises {type(e).__name__}")
+        with h5py.File(p1, "r") as fp:
+            g = fp if spec["group"] == "/" else fp[spec["group"]]
+            if sorted(g.keys()) != sorted(written):
+                out["oracle"].append(f"group holds {sorted(g.keys())}, written {sorted(written)}")
+            for key, j in written.items():
+                if key not in g:
+                    continue
+                kind = kinds[j]
+                try:
+                    dsd = _safe(dump_dataset, g[key])
+                except Undumpable as e:
+                    out["notes"].append(f"undumpable: {e}")
+                    continue
+                try:
+                    back = (Emulsion if kind == "emulsion" else DropletTrack)._from_hdf_dataset(g[key])
+                except Exception as e:  # noqa
+                    out["oracle"].append(f"dataset {key} was written without error but cannot be read: {type(e).__name__}")
+                    out["dstriples"].append((kind, dumps[j], dsd, None, exc_kind(e)))
+                    continue
+                out["oracle"].extend(f + f" [dataset {key} in an open group]" for f in property_failures(objs[j], back, kind))
+                try:
+                    out["dstriples"].append((kind, dumps[j], dsd, _safe(dump_obj, back, kind), "ok"))
+                except Undumpable as e:
+                    out["notes"].append(f"undumpable: {e}")
+    else:
+        raise ValueError(seq)
+    out["oracle"] = sorted(set(out["oracle"]))
+    return out
+
+
+HEADER3 = HEADER + """
+Definition enc_ds (o : obj) : result dataset :=
+  match o with OEm l => enc_emulsion repo_fmt l | OTr l => enc_track repo_fmt l | _ => Err EOther end.
+Definition dec_ds (o : obj) (d : dataset) : result obj :=
+  match o with
+  | OEm _ => rmap OEm (dec_emulsion repo_fmt d)
+  | OTr _ => rmap OTr (dec_track repo_fmt d)
+  | _ => Err EOther
+  end.
+(* case = (object, the dataset that _write_hdf_dataset left in an open group, what _from_hdf_dataset returned) *)
+Definition agree3 (c : obj * dataset * result obj) : bool :=
+  let '(o, d, r) := c in result_eqb dataset_eqb (enc_ds o) (Ok d) && result_eqb obj_eqb (dec_ds o d) r.
 """
 
 
@@ -1533,6 +1968,52 @@ def check(ctx: vlib.Ctx) -> int:
         recipes += exotic_time_recipes(rng)
         results = [run_one(r, workdir) for r in recipes]
 
+        # ---- sequences of calls (state kept between calls: on disk, in objects, in the module); own PRNG stream so
+        # that the recipe stream above does not depend on them
+        rng_seq = random.Random(ctx.seed * 7919 + 8)
+        seq_specs = sequence_specs(rng_seq, ctx.scale(2, 12))
+        seq_lits, seq_index, seqds_lits, seqds_index = [], [], [], []
+        seq_viol = []
+        for j, spec in enumerate(seq_specs):
+            try:
+                sres = run_sequence(spec, workdir)
+            except Exception as e:  # noqa
+                # every object of a sequence can be built, written and read in a fresh state (the state-free model
+                # says so below), so a call that raises here does so because of what happened before
+                sres = {"oracle": [f"sequence aborted by {type(e).__name__}: {str(e)[:160]}"], "triples": [], "dstriples": [],
+                        "notes": []}
+            ctx.case(["seq", spec["seq"], spec["label"], j], nontrivial=True)
+            okay = "ok" if not sres["oracle"] else "FAILS"
+            ctx.count("sequence", f"{spec['seq']}: {okay}")
+            if spec["seq"] == "write_over":
+                first, rel = spec["label"].split(", second ")
+                ctx.count("seq_write_over_kinds", first.replace(" then ", " -> "))
+                ctx.count("seq_write_over_length", "second " + rel)
+            elif spec["seq"] == "read_mutate_write":
+                ctx.count("seq_read_mutate_write", spec["label"])
+            elif spec["seq"] == "after_failure":
+                for nt in sres["notes"]:
+                    ctx.count("seq_after_failure", f"{spec['label']}: {nt}")
+            elif spec["seq"] == "open_group":
+                ctx.count("seq_open_group", f"group {spec['group']!r}, {spec['label']}" + "".join(
+                    ", " + nt for nt in sres["notes"] if "existing key" in nt))
+            elif spec["seq"] == "alternate_classes":
+                ctx.count("seq_lookalikes", spec["label"].split(": ", 1)[1])
+            if any(nt.startswith("undumpable") for nt in sres["notes"]):
+                ctx.broken.append(f"sequence {j} ({spec['seq']}, {spec['label']}): " + "; ".join(sres["notes"])[:200])
+            for kind, od, fd, bd, status in sres["triples"]:
+                w2, r2 = _result_lits(kind, fd, bd, status)
+                seq_lits.append(f"({cq_obj(kind, od)}, {w2}, {r2})")
+                seq_index.append(j)
+            for kind, od, dsd, bd, status in sres["dstriples"]:
+                r2 = f"(Ok {cq_obj(kind, bd)})" if status == "ok" else f"(@Err obj {cq_err(status)})"
+                seqds_lits.append(f"({cq_obj(kind, od)}, {cq_dataset(*dsd)}, {r2})")
+                seqds_index.append(j)
+            if sres["oracle"]:
+                seq_viol.append({"what": f"sequence {spec['seq']} ({spec['label']}): " + "; ".join(sres["oracle"][:4]),
+                                 "input": spec, "found": True})
+        ctx.evaluations += len(seq_lits) + len(seqds_lits)
+
         # ---- correspondence literals
         lits, lit_index, long_lits, long_index = [], [], [], []
         suspected_hits = []
@@ -1614,13 +2095,22 @@ def check(ctx: vlib.Ctx) -> int:
         bad_cases: list[int] = []
         if ok:
             from concurrent.futures import ThreadPoolExecutor
-            with ThreadPoolExecutor(max_workers=3) as ex:
+            with ThreadPoolExecutor(max_workers=5) as ex:
                 fut = ex.submit(vlib.run_cases, ctx, "codec", HEADER, lits, "agree", 100) if lits else None
                 fut_long = ex.submit(vlib.run_cases, ctx, "long", HEADER, long_lits, "agree", 1) if long_lits else None
                 fut2 = ex.submit(vlib.run_cases, ctx, "readers", HEADER2, lits2, "agree2", 120) if lits2 else None
+                fut_s = ex.submit(vlib.run_cases, ctx, "seqfile", HEADER, seq_lits, "agree", 100) if seq_lits else None
+                fut_d = ex.submit(vlib.run_cases, ctx, "seqds", HEADER3, seqds_lits, "agree3", 100) if seqds_lits else None
                 bad = fut.result() if fut else []
                 bad_long = fut_long.result() if fut_long else []
                 bad2 = fut2.result() if fut2 else []
+                bad_s = sorted({seq_index[b] for b in (fut_s.result() if fut_s else [])}
+                               | {seqds_index[b] for b in (fut_d.result() if fut_d else [])})
+            if bad_s:
+                sp = seq_specs[bad_s[0]]
+                ctx.broken.append(f"correspondence sequences: a file or dataset left by a sequence of calls differs from "
+                                  f"the state-free model in {len(bad_s)} sequence(s), e.g. {sp['seq']} ({sp['label']})")
+                ctx.extra["disagreeing_sequences"] = [seq_specs[b] for b in bad_s[:2]]
             bad_cases = sorted({lit_index[b] for b in bad} | {long_index[b] for b in bad_long})
             if bad_cases:
                 ex_ = results[bad_cases[0]]
@@ -1645,13 +2135,14 @@ def check(ctx: vlib.Ctx) -> int:
                 suspected_hits.append(v)
                 continue
             ctx.violations.append(v)
+        ctx.violations.extend(seq_viol)
         if suspected_hits:
             ctx.notes.append(f"SUSPECTED (reported, not judged): {len(suspected_hits)} input(s), first: "
                              + json.dumps(suspected_hits[0], default=str)[:600])
         if len(ctx.violations) > 2:      # one replay file per distinct symptom is enough
             seen, keep = set(), []
             for v in ctx.violations:
-                key = (v["input"].get("kind"), v["what"][:60])
+                key = (v["input"].get("kind") or v["input"].get("seq"), v["what"][:60])
                 if key not in seen:
                     seen.add(key)
                     keep.append(v)
@@ -1670,6 +2161,16 @@ def check(ctx: vlib.Ctx) -> int:
                 if isinstance(w, int) and w != 6 and 10 ** w + 1 <= 20001:
                     for v in long_collection_failures(w, kind, workdir):
                         ctx.violations.append({**v, "broken": (pending + ctx.broken)[:3]})
+            if not ctx.violations:
+                for spec in sequence_specs(rng_seq, ctx.scale(6, 12)):
+                    try:
+                        sres = run_sequence(spec, workdir)
+                    except Exception as e:  # noqa
+                        sres = {"oracle": [f"sequence aborted by {type(e).__name__}: {str(e)[:160]}"]}
+                    if sres["oracle"]:
+                        ctx.violations.append({"what": f"sequence {spec['seq']} ({spec['label']}): " + "; ".join(sres["oracle"][:4]),
+                                               "input": spec, "found": True, "broken": (pending + ctx.broken)[:3]})
+                        break
             if not ctx.violations:
                 extra = [gen_recipe(rng, i) for i in range(ctx.scale(1500, 6000))]
                 for rec in extra:
@@ -1692,7 +2193,9 @@ def check(ctx: vlib.Ctx) -> int:
             "input dimensions (notes/input_dimensions.md): see the histogram keys class, dim, n_amplitudes, "
             "amplitude_pattern, bits_*, time_style, time_zero_position, time_order, time_type, int_time_size, "
             "times_container, n_frames / n_tracks, empty_frames / empty_tracks, build, provenance, history, "
-            "option_info, option_progress, long_collection, cross_read, after_failed_to_file (informational: a to_file "
+            "option_info, option_progress, long_collection, cross_read, sequence / seq_* (dimension 8: every file or "
+            "dataset a sequence of calls leaves behind is compared with the state-free model in Coq and judged by the "
+            "oracle against the last object written), after_failed_to_file (informational: a to_file "
             "that raises in the middle of a time course / track list leaves a readable, shorter file behind). "
             "Oracle only (outside the hand model): time codes of numpy types other than int64/float64 and 0-d arrays "
             "(time_style exotic:*), collections with more than 1001 members; file-level attributes written for "
@@ -1721,6 +2224,23 @@ def replay(path: str) -> int:
     blob = json.load(open(path))
     rec = blob.get("input")
     print(json.dumps({k: blob[k] for k in blob if k != "input"}, indent=1)[:1500])
+    if isinstance(rec, dict) and rec.get("seq"):
+        workdir = vlib.BUILD / "cases" / "C08" / "replaytmp"
+        workdir.mkdir(parents=True, exist_ok=True)
+        try:
+            try:
+                sres = run_sequence(rec, workdir)
+            except Exception as e:  # noqa
+                sres = {"oracle": [f"sequence aborted by {type(e).__name__}: {str(e)[:160]}"], "notes": []}
+        finally:
+            shutil.rmtree(workdir, ignore_errors=True)
+        print("sequence:", rec["seq"], "--", rec["label"])
+        for j, r in enumerate(rec["objs"]):
+            print(f"  object {j}:", json.dumps(r)[:400])
+        print("  notes :", sres.get("notes"))
+        print("  oracle:", sres["oracle"])
+        print("property violated on the current tree:", bool(sres["oracle"]))
+        return 1 if sres["oracle"] else 0
     if isinstance(rec, dict) and rec.get("regenerate") and isinstance(rec.get("long"), int):
         cands = [r for r in long_recipes([rec["long"]]) if r["kind"] == rec["kind"]]
         rec = next((r for r in cands if bool(r.get("oracle_only")) == bool(rec.get("oracle_only"))), cands[0])
